@@ -324,6 +324,21 @@ theorem gen_SHAKE128_eq_spec (fuel : Nat) (h : List UInt8) (hoff outlen : Nat) (
       SqiProofs.SpongeGen.Written h h' hoff outlen (Fips202.shake128 msg outlen) :=
   gen_shake128_oneshot_eq_spec fuel h hoff outlen msg s0 t0 ia ta iq1 iq2 ic ht0 hta hl hf
 
+/-- `shake*_inc_ctx_clone` / `shake*_ctx_clone` as re-extracted (allocation size and memcpy size resolved from the C text): the clone
+    has the source's 25 lanes and, for the incremental context, the source's byte counter `s_inc[25]`; the non-incremental clone copies
+    25 lanes only (its context has no counter) -/
+theorem gen_ctx_clone_eq (src dest0 : Fips202.State × Nat) :
+    SqiGen.Sponge.shake256_inc_ctx_clone.run src dest0 = src ∧ SqiGen.Sponge.shake128_inc_ctx_clone.run src dest0 = src ∧
+    (SqiGen.Sponge.shake256_ctx_clone.run src dest0).1 = src.1 ∧ (SqiGen.Sponge.shake128_ctx_clone.run src dest0).1 = src.1 := by
+  have k : ∀ nl, 25 ≤ nl → (SqiGen.Sponge.memcpyCtx nl dest0 src).1 = src.1 := by
+    intro nl hnl
+    apply Vector.ext
+    intro i hi
+    simp [SqiGen.Sponge.memcpyCtx, show i < nl by omega]
+  have k2 : (SqiGen.Sponge.memcpyCtx 26 dest0 src).2 = src.2 := by simp [SqiGen.Sponge.memcpyCtx]
+  have k26 : SqiGen.Sponge.memcpyCtx 26 dest0 src = src := Prod.ext (k 26 (by omega)) k2
+  exact ⟨k26, k26, k 25 (Nat.le_refl _), k 25 (Nat.le_refl _)⟩
+
 /-- the incremental API (`shake256_inc_init/absorb/finalize/squeeze`), for any chunking of the message and any split
     of the output request, produces FIPS 202 SHAKE256 of the concatenation, truncated to the total request -/
 theorem shake256_inc_eq_spec (chunks : List (List UInt8)) (reqs : List Nat) :
